@@ -175,7 +175,7 @@ class NamespaceFunction(Namespace[symtable.Function]):
             return Call(
                 func=Attribute(
                     value=Call(
-                        func=Name(id="globals", ctx=Load()), args=[], keywords=[]
+                        func=utils.builtin("globals"), args=[], keywords=[]
                     ),
                     attr="__setitem__",
                     ctx=Load(),
@@ -226,7 +226,7 @@ class NamespaceFunction(Namespace[symtable.Function]):
 
         if self._is_shadowed_global(name):
             return Subscript(
-                value=Call(func=Name(id="globals", ctx=Load()), args=[], keywords=[]),
+                value=Call(func=utils.builtin("globals"), args=[], keywords=[]),
                 slice=Constant(value=name),
                 ctx=Load(),
             )
@@ -299,7 +299,7 @@ class NamespaceClass(Namespace[symtable.Class]):
             return Call(
                 func=Attribute(
                     value=Call(
-                        func=Name(id="globals", ctx=Load()), args=[], keywords=[]
+                        func=utils.builtin("globals"), args=[], keywords=[]
                     ),
                     attr="__setitem__",
                     ctx=Load(),
@@ -330,7 +330,7 @@ class NamespaceClass(Namespace[symtable.Class]):
         if self._find_outer_function_with_local(name) is not None:
             # A plain name would load the local variable of the outer function
             return Subscript(
-                value=Call(func=Name(id="globals", ctx=Load()), args=[], keywords=[]),
+                value=Call(func=utils.builtin("globals"), args=[], keywords=[]),
                 slice=Constant(value=name),
                 ctx=Load(),
             )
